@@ -118,6 +118,7 @@ func cmdCheck(args []string) int {
 	t0 := time.Now()
 	pd, ok := propDefs[*prop]
 	skipLabels = pd.Skip
+	curProp = *prop
 	if !ok {
 		fmt.Fprintln(os.Stderr, "unknown property", *prop)
 		return 2
@@ -439,7 +440,29 @@ func (db *SpecDB) expectFloor(prop string) (int, bool) {
 // skipLabels: see PropDef.Skip.
 var skipLabels []string
 
+// curProp: the property being checked ("" outside `govc check`).
+var curProp string
+
+// invGroup: properties that share the loop invariants written for any of them
+// (the graph-set contracts of Union/Intersect/Add/cleanEdges serve C08, C09 and
+// C10 together; the SPDX builder invariants serve C01 and C03).
+var invGroup = map[string]string{"C08": "graph", "C09": "graph", "C10": "graph", "C01": "spdx", "C03": "spdx"}
+
+func groupOf(p string) string {
+	if g, ok := invGroup[p]; ok {
+		return g
+	}
+	return p
+}
+
 func skipLabel(label string) bool {
+	if curProp != "" && len(label) >= 7 && label[0] == 'C' && label[3] == ':' {
+		// loop invariants written for one property (group) are generated only in
+		// the runs of that group
+		if (strings.HasPrefix(label[3:], ":inv") || strings.HasPrefix(label[3:], ":idx")) && groupOf(label[:3]) != groupOf(curProp) {
+			return true
+		}
+	}
 	for _, p := range skipLabels {
 		if strings.HasPrefix(label, p) {
 			return true
